@@ -68,43 +68,6 @@ func c19Guard(f func() string) string {
 	}
 }
 
-// c19ParseErrClass maps the (constant-prefixed) errors of rpc_parse.go to the
-// model's enum.
-func c19ParseErrClass(err error) string {
-	m := err.Error()
-	switch {
-	case strings.Contains(m, "server order details missing"),
-		strings.Contains(m, "server ask missing"), strings.Contains(m, "server bid missing"):
-		return "nil-msg"
-	case strings.Contains(m, "unable to parse node pub key"),
-		strings.Contains(m, "unable to parse multi sig pub key"),
-		strings.Contains(m, "error parsing account key"):
-		return "pubkey"
-	case strings.Contains(m, "unable to parse node addr"),
-		strings.Contains(m, "doesn't include any node addrs"):
-		return "addr"
-	case strings.Contains(m, "unhandled channel type"):
-		return "chan-type"
-	case strings.Contains(m, "cannot match both asks and bids"):
-		return "both-sides"
-	case strings.Contains(m, "error parsing nonce"), strings.Contains(m, "error hex decoding"):
-		return "hex"
-	case strings.Contains(m, "incorrect lease duration"):
-		return "lease"
-	case strings.Contains(m, "error parsing batch TX"):
-		return "tx"
-	case strings.Contains(m, "execution fee missing"):
-		return "fee-missing"
-	case strings.Contains(m, "error parsing batch ID"):
-		return "batch-id"
-	case strings.Contains(m, "invalid account key length"):
-		return "key-len"
-	case strings.Contains(m, "invalid pub nonce length"):
-		return "nonce-len"
-	}
-	return "other"
-}
-
 // c19AddrOK is the address oracle bit: the outcome of the resolver calls that
 // parseNodeAddrs makes for one address, measured by calling them directly.
 func c19AddrOK(a *auctioneerrpc.NodeAddress) bool {
@@ -135,6 +98,16 @@ func c19TokServerOrder(d *auctioneerrpc.ServerOrder) string {
 // c19TokPrepare renders a decoded prepare message as the model's token. Map
 // entries are listed in sorted key order.
 func c19TokPrepare(m *auctioneerrpc.OrderMatchPrepare) string {
+	return c19TokPrepareEntries(m, nil)
+}
+
+// c19Entry is one (nonce, MatchedOrder) map entry with its token.
+type c19Entry struct {
+	tok string
+	mo  *auctioneerrpc.MatchedOrder
+}
+
+func c19TokPrepareEntries(m *auctioneerrpc.OrderMatchPrepare, entries *[]c19Entry) string {
 	var durs []int
 	for d := range m.MatchedMarkets {
 		durs = append(durs, int(d))
@@ -168,8 +141,12 @@ func c19TokPrepare(m *auctioneerrpc.OrderMatchPrepare) string {
 						b.Bid.LeaseDurationBlocks))
 				}
 			}
-			orders = append(orders, fmt.Sprintf("(%s,(%s),(%s))", decHex([]byte(k)),
-				strings.Join(asks, ","), strings.Join(bids, ",")))
+			entry := fmt.Sprintf("(%s,(%s),(%s))", decHex([]byte(k)),
+				strings.Join(asks, ","), strings.Join(bids, ","))
+			orders = append(orders, entry)
+			if entries != nil {
+				*entries = append(*entries, c19Entry{tok: entry, mo: mo})
+			}
 		}
 		markets = append(markets, fmt.Sprintf("(%d,(%s))", d, strings.Join(orders, ",")))
 	}
@@ -222,10 +199,7 @@ func c19ExecPrepare(r *Run, m *auctioneerrpc.OrderMatchPrepare, classOnly bool, 
 	parse := c19Guard(func() string {
 		_, err := order.ParseRPCBatch(m)
 		if err != nil {
-			if classOnly {
-				return "err"
-			}
-			return "err:" + c19ParseErrClass(err)
+			return "err"
 		}
 		return "ok"
 	})
@@ -243,16 +217,30 @@ func c19ExecPrepare(r *Run, m *auctioneerrpc.OrderMatchPrepare, classOnly bool, 
 	if classOnly {
 		op = "prepc"
 	}
-	tok := c19TokPrepare(m)
+	var entries []c19Entry
+	tok := c19TokPrepareEntries(m, &entries)
 	out := parse + " " + srv + " " + acc
 	r.Emit("C19 "+op+" "+tok, out)
+	// which entry fails is compared without looking at error texts: the
+	// exported sub-parser is run on (up to two of) the map entries on its own
+	for i, e := range entries {
+		if i >= 2 {
+			break
+		}
+		mo := e.mo
+		cls := c19Guard(func() string {
+			if _, err := order.ParseRPCMatchedOrders(mo); err != nil {
+				return "err"
+			}
+			return "ok"
+		})
+		r.Emit("C19 mo "+e.tok, cls)
+		r.Count("mo/out=" + cls)
+	}
 	r.Evaluations++
 	r.Distinct(tok)
 	r.Count("prep/" + kind)
-	r.Count("prep/out=" + strings.SplitN(parse, ":", 2)[0])
-	if strings.HasPrefix(parse, "err:") {
-		r.Count("prep/" + parse)
-	}
+	r.Count("prep/out=" + parse)
 	r.Sample(map[string]string{"op": op, "msg": tok, "real_code": out})
 	bad := ""
 	switch {
